@@ -11,6 +11,7 @@ package main
 
 import (
 	"fmt"
+	"strings"
 	"go/types"
 
 	"golang.org/x/tools/go/ssa"
@@ -30,6 +31,9 @@ func (e *Exec) trackIdent(fr *Frame, st *State, in ssa.Instruction) {
 	val, ok := fr.vals[v]
 	if !ok || val.K != KBytes {
 		return
+	}
+	if val.Ident != "" {
+		return // set where the value was produced (a load from a field)
 	}
 	id := ""
 	switch x := in.(type) {
@@ -93,6 +97,13 @@ func (e *Exec) handOver(fr *Frame, st *State, v Val, cond string) {
 // its spare capacity).
 func (e *Exec) checkWritable(fr *Frame, st *State, in ssa.Instruction, base Val, what string) {
 	if !fr.top || !e.ownership() || base.K != KBytes || base.Ident == "" {
+		return
+	}
+	if strings.HasPrefix(base.Ident, "heap:") {
+		// the buffer was stored in a field before this call: whoever received it earlier
+		// (a caller, a queue) may still be using it
+		e.obligeNoAssume(st, fmt.Sprintf("handover:%s-stored:%d", what, e.ord[in]), "handover", e.fc.Owns, "false",
+			"a []byte that was stored in a field before this call is not written in place ("+what+" may reuse its backing array while earlier recipients still hold it)", in.Pos())
 		return
 	}
 	f := e.frozenTerm(st, base.Ident, 0)
